@@ -378,6 +378,13 @@ fn real_main() {
                 .collect();
             cases::write_lines(&out, &lines);
         }
+        Some("trace-producers") => {
+            // replay TLC-generated behaviours of Producers.tla on real Modules
+            let hists = wv::builder::read_histories(&get("histories", ""));
+            let lines: Vec<_> = hists.par_iter().enumerate().map(|(k, h)| wv::producers::replay(&format!("p{}", k), h)).collect();
+            cases::write_lines(&out, &lines);
+            println!("histories {}", lines.len());
+        }
         Some("trace-types") => {
             // replay TLC-generated behaviours of Types.tla on real Modules
             let hists = wv::builder::read_histories(&get("histories", ""));
